@@ -169,7 +169,7 @@ def lost(source: str, output: str):
 # the real rules
 
 
-RULES = ["RUndefine", "RPointless", "RDeleteUnused", "RSelfCls", "RMoveStatic", "RDuplicate", "RAlign"]
+RULES = ["RUndefine", "RPointless", "RDeleteUnused", "RSelfCls", "RMoveStatic", "RDuplicate", "RAlign", "RUnreachable"]
 
 
 def run_rule(mods, rule: str, source: str, P) -> str:
@@ -189,6 +189,8 @@ def run_rule(mods, rule: str, source: str, P) -> str:
             return oo.move_staticmethod_static_scope(source, preserve=P)
         if rule == "RDuplicate":
             return fixes.remove_duplicate_functions(source, preserve=P)
+        if rule == "RUnreachable":
+            return fixes.delete_unreachable_code(source, preserve=P)
         if rule == "RAlign":
             return fixes.align_variable_names_with_convention(source, preserve=P)
     raise ValueError(rule)
@@ -309,3 +311,64 @@ def preserve_sets(source: str, rnd=None, single=True, quick=True):
         for _ in range(1 if quick else 2):
             sets.append(sorted(rnd.sample(keys, rnd.randint(1, len(keys) - 1))))
     return sets
+
+
+# ---------------------------------------------------------------------------------------------
+# generic pipeline bisection with a caller-supplied badness predicate on a stage's source text
+
+
+def bisect_pipeline(mods, runner, bad, first_input_site="main._format_code:single_run_fixes"):
+    """run `runner()` (which formats something through pyrefact.main) with every public rule function of the
+    modules main uses wrapped; report the first stage whose input is not bad(...) but whose output is.
+    If the source is already bad when it enters the first wrapped stage the chained single-run fixes
+    (which processing.chain inspects and therefore cannot be wrapped) are reported."""
+    import types as _types
+    main = mods["main"]
+    found, patched, seen_first = [], [], []
+    memo = {}
+
+    def is_bad(src):
+        if src not in memo:
+            try:
+                memo[src] = bool(bad(src))
+            except Exception:  # noqa
+                memo[src] = False
+        return memo[src]
+
+    chained = {"deinterpolate_logging_args", "invalid_escape_sequence"}
+    for modname in ("fixes", "object_oriented", "abstractions", "symbolic_math", "performance",
+                    "performance_numpy", "performance_pandas"):
+        mod = getattr(main, modname, None)
+        if mod is None:
+            continue
+        for attr in dir(mod):
+            fn = getattr(mod, attr)
+            if attr.startswith("_") or attr in chained or not isinstance(fn, _types.FunctionType) \
+                    or getattr(fn, "__module__", "") != mod.__name__:
+                continue
+
+            def make(fn=fn, name=f"{modname}.{attr}"):
+                def wrapped(src, *a, **k):
+                    if not seen_first and isinstance(src, str) and name != "fixes.fix_too_many_blank_lines" \
+                            and name != "fixes.add_missing_imports":
+                        seen_first.append(name)
+                        if not found and is_bad(src):
+                            found.append(first_input_site)
+                    out = fn(src, *a, **k)
+                    if not found and isinstance(src, str) and isinstance(out, str) and out != src:
+                        if not is_bad(src) and is_bad(out):
+                            found.append(name)
+                    return out
+                return wrapped
+            patched.append((mod, attr, fn))
+            setattr(mod, attr, make())
+    try:
+        mods["core"].parse.cache_clear()
+        with common.quiet():
+            runner()
+    except Exception as e:  # noqa
+        common.log(f"note: bisection run raised {type(e).__name__}: {e}")
+    finally:
+        for mod, attr, fn in patched:
+            setattr(mod, attr, fn)
+    return found[0] if found else None
